@@ -86,8 +86,9 @@ func c16Count(m *c16Map) int {
 	return c
 }
 
-func c16Table() *c16Map {
-	n := c16N()
+func c16Table() *c16Map { return c16TableN(c16N()) }
+
+func c16TableN(n int) *c16Map {
 	m := &c16Map{data: make([]Pair[uint64], n), mask: n - 1, growAt: n * 3 / 4}
 	for i := 0; i < n; i++ {
 		m.data[i].Key = vU64("key")
